@@ -13,7 +13,7 @@ from harness import tlc
 from harness.check import CheckRun
 from harness.realise import eao, quiet
 
-INVS = ['Increasing', 'StartsAtStart', 'BeforeEnd', 'StepLenTrue', 'CumLenTrue', 'RestrictDef', 'CoarsePartition', 'AssignDef']
+INVS = ['Increasing', 'StartsAtStart', 'BeforeEnd', 'StepLenTrue', 'CumLenTrue', 'RestrictDef', 'CoarsePartition', 'AssignDef', 'PricesDef']
 MTU = {'h': (1, 1), 'd': (24, 1), 'min': (1, 60), '15min': (1, 4)}
 ZONES = [dict(sw=-1, d=0), dict(sw=26, d=1), dict(sw=27, d=-1)]
 UNDEF = -999
@@ -52,7 +52,11 @@ def constants(tier):
                 WinStarts=[-6, 0, 6, 12, 24, 30, 48] if th else [0, 6, 24, 30],
                 WinEnds=[12, 24, 36, 48, 72, 96] if th else [12, 36, 48, 72],
                 CoarseFreqs=[dict(k=1, cal=True), dict(k=6, cal=False), dict(k=4, cal=False)] if th else [dict(k=1, cal=True), dict(k=6, cal=False)],
-                IntervalLists=interval_lists(tier))
+                IntervalLists=interval_lists(tier),
+                # timestamped price points (local hour, value): on / off the grid, before / after it, around the switch, unsorted, a single point
+                PriceLists=[[dict(t=0, v=2), dict(t=24, v=8)], [dict(t=30, v=7), dict(t=6, v=1), dict(t=54, v=4)], [dict(t=28, v=3)],
+                            [dict(t=12, v=5), dict(t=36, v=5)], [dict(t=-12, v=0), dict(t=100, v=56)], [dict(t=25, v=0), dict(t=28, v=9)]]
+                + ([[dict(t=22, v=1), dict(t=23, v=4), dict(t=29, v=-2), dict(t=47, v=6)], [dict(t=13, v=-3), dict(t=31, v=3)]] if th else []))
 
 
 def anchor(z):
@@ -170,6 +174,24 @@ def compare(rec):
         if got != list(out['vals']):
             return 'assigned values differ: code %s spec %s' % (got, list(out['vals']))
         return ''
+    if op['kind'] == 'prices':
+        # timestamped price points (in the order given): interpolated in absolute time, constant outside
+        def ts(l):
+            t = rg.loc(l)
+            return t.tz_localize(rg.tz) if rg.tz else t
+        pts = {ts(k['t']): float(k['v']) for k in op['P']}
+        try:
+            pg = g.prices_to_grid({'p': pts})
+        except Exception as e:
+            return 'prices_to_grid raised %s: %s' % (type(e).__name__, str(e)[:80])
+        if list(pg.index) != list(g.timepoints):
+            return 'price table is not indexed by the grid points'
+        want = [Fraction(int(v[0]), int(v[1])) for v in out['vals']]
+        got = pg['p'].values
+        for i, (x, w) in enumerate(zip(got, want)):
+            if not abs(float(x) - float(w)) <= 1e-9 * max(1.0, abs(float(w))):
+                return 'interpolated price differs at grid point %d: code %r spec %s' % (i + 1, float(x), w)
+        return ''
     return 'unknown op'
 
 
@@ -220,7 +242,7 @@ def run(tier, seed):
     chk.assumptions += ['pandas calendar arithmetic is trusted for turning ticks into timestamps; the specification says what step lengths must be',
                         'local hours that do not exist / are ambiguous are not used as inputs', 'CET around the switches of 2021-03-28 and 2021-10-31']
     return chk.finish(rule='all (zone, frequency, start, end, main time unit) cases on an hourly lattice around a real DST switch; for each all restriction windows, '
-                           'coarse frequencies x windows, interval lists; every call compared exactly; non-trivial = distinct call that agrees', exhaustive=True,
+                           'coarse frequencies x windows, interval lists, timestamped price lists; every call compared exactly; non-trivial = distinct call that agrees', exhaustive=True,
                       extra=dict(traces_validated_against_impl=0, spec_calls_replayed_into_impl=len(r['records'])))
 
 
